@@ -69,7 +69,7 @@ def line (toks : List String) : String :=
   | ["S"] => "\t"
   | ["X", n] =>
     match n.toNat? with
-    | some e => toString (AldorVerif.Exit.exitStatus e) ++ "\t" ++ (if e ≥ 256 then "wrap" else "nowrap")
+    | some e => toString (AldorVerif.Exit.exitStatus e) ++ "\t" ++ (if e ≥ 256 then "saturated" else "exact")
     | none => "bad-op"
   | _ => "bad-op"
 
